@@ -208,8 +208,10 @@ class HTAIL(Harness):
             var = O.vsum([(v - mean) * (v - mean) for v in yv]) / k
             fs = self_.fsd
             out.ob("fsd_is_standard_error_of_yval_vec", O.And(O.ge(fs, 0), O.approx(fs * fs * k, var, 1e-9)))
-            out.ob("result_yval_vec_is_copy", res["yval_vec"] is not self_.optim_state["yval_vec"] and
-                   O.And(*[O.eq(a, b, 0.0) for a, b in zip(np.asarray(_raw(res["yval_vec"])).ravel(), yv)]))
+            rv_ = res["yval_vec"]
+            out.ob("result_yval_vec_is_copy", rv_ is not None and rv_ is not self_.optim_state["yval_vec"] and
+                   np.asarray(_raw(rv_)).size == yv.size and
+                   O.And(*[O.eq(a, b, 0.0) for a, b in zip(np.asarray(_raw(rv_)).ravel(), yv)]))
             if level == 2:
                 sv = np.asarray(_raw(self_.optim_state["ysd_vec"])).ravel()
                 sds = [c[2] for c in calls]
